@@ -210,20 +210,20 @@ def conditions(tier: str, seed: int) -> typing.List[Cond]:
             if kind == "int" and w < 2:
                 continue
             out.append(Cond(PROP, "c12.int", make_int, {"kind": kind, "width": w, "cast": cast}, {"v": int},
-                            assumptions=A, witness={"v": 1}, budget=120.0, fmtstub=True))
+                            assumptions=A, witness={"v": 1}, budget=40.0, fmtstub=True))
     for kind, cast in (("byte", "truncated"), ("utf8", "truncated")):
         out.append(Cond(PROP, "c12.int", make_int, {"kind": kind, "width": 8, "cast": cast}, {"v": int},
-                        assumptions=A, witness={"v": 1}, budget=120.0, fmtstub=True))
+                        assumptions=A, witness={"v": 1}, budget=40.0, fmtstub=True))
     for den in (2, 3, 5, 7, 10):
         for kind, w in [("uint", 8), ("int", 8), ("uint", 1), ("int", 33), ("uint", 64), ("float", 16), ("float", 32),
                         ("float", 64)]:
             out.append(Cond(PROP, "c12.frac", make_frac, {"kind": kind, "width": w, "den": den}, {"n": int},
-                            assumptions=["value n/%d, n unbounded" % den], witness={"n": den * 3}, budget=120.0, fmtstub=True))
+                            assumptions=["value n/%d, n unbounded" % den], witness={"n": den * 3}, budget=40.0, fmtstub=True))
         for w in (16, 32, 64):
             for sign in (1, -1):
                 out.append(Cond(PROP, "c12.float-edge", make_float_edge, {"width": w, "den": den, "sign": sign},
                                 {"n": int}, assumptions=["value = +-(largest finite + n/%d), n unbounded" % den],
-                                witness={"n": 0}, budget=120.0, fmtstub=True))
+                                witness={"n": 0}, budget=40.0, fmtstub=True))
     for kind, w, cast in [("uint", 8, "saturated"), ("uint", 8, "truncated"), ("byte", 8, "truncated"),
                           ("utf8", 8, "truncated"), ("uint", 7, "saturated"), ("uint", 9, "saturated"),
                           ("int", 8, "saturated"), ("uint", 16, "saturated"), ("float", 16, "saturated"),
@@ -234,12 +234,12 @@ def conditions(tier: str, seed: int) -> typing.List[Cond]:
             wit = {"s": "a" * length}
             out.append(Cond(PROP, "c12.string", make_string, {"kind": kind, "width": w, "cast": cast, "length": length},
                             {"s": str}, assumptions=["string of exactly %d symbolic characters" % length],
-                            witness=wit, budget=120.0, fmtstub=True))
+                            witness=wit, budget=40.0, fmtstub=True))
     for kind, w in [("bool", 1), ("uint", 8), ("uint", 2), ("int", 2), ("float", 32), ("void", 3), ("farray", 0),
                     ("varray", 0)]:
         out.append(Cond(PROP, "c12.kinds", make_kinds, {"kind": kind, "width": w}, {"which": int, "b": bool, "v": int},
                         kind="choice", assumptions=["value kind in 0..5; |v| <= 3"],
-                        witness={"which": 1, "b": True, "v": 1}, budget=120.0, fmtstub=True))
+                        witness={"which": 1, "b": True, "v": 1}, budget=40.0, fmtstub=True))
     return out
 
 
